@@ -1,0 +1,42 @@
+//go:build verif
+
+// Contracts for package geometry, part 2: the binary relations Contains* / Intersects* of the
+// Geometry interface on Point, Rect, *Line, *Poly (C02, C03) and the symmetry pieces of C12.
+// Read by /verif/govc (comment-only file, compiled only under the build tag "verif").
+
+package geometry
+
+// ---------------------------------------------------------------- shape-level accessors used by the relation specs
+
+//@ spec func lineEmptyS(l *Line) bool { bsEmpty(l.baseSeries) }
+//@ spec func lineRectS(l *Line) Rect { l.baseSeries.rect }
+//@ spec func polyEmptyS(P *Poly) bool { P == nil || polyExt(P) == nil || sEmpty(polyExt(P)) }
+//@ spec func polyRectS(P *Poly) Rect { ite(P == nil || polyExt(P) == nil, mkRect(mkPoint(0,0), mkPoint(0,0)), sRect(polyExt(P))) }
+
+// ---------------------------------------------------------------- Point receiver (C03: B non-empty and bbox(B) == (p,p); C02: membership)
+
+//@ spec func pointContainsPointS(p Point, q Point) bool { p == q }
+//@ spec func pointIntersectsPointS(p Point, q Point) bool { p == q }
+//@ spec func pointContainsRectS(p Point, r Rect) bool { r == mkRect(p, p) }
+//@ spec func pointIntersectsRectS(p Point, r Rect) bool { rectHas(r, p) }
+//@ spec func pointContainsLineS(p Point, l *Line) bool { l != nil && !lineEmptyS(l) && lineRectS(l) == mkRect(p, p) }
+//@ spec func pointIntersectsLineS(p Point, l *Line) bool { l != nil && lineHas(l, p) }
+//@ spec func pointContainsPolyS(p Point, P *Poly) bool { P != nil && !polyEmptyS(P) && polyRectS(P) == mkRect(p, p) }
+//@ spec func pointIntersectsPolyS(p Point, P *Poly) bool { P != nil && polyHas(P, p) }
+
+//@ func Point.ContainsRect
+//@   props C03
+//@   arith order
+//@   ensures result == pointContainsRectS(point, rect)
+
+//@ func Point.ContainsLine
+//@   props C03
+//@   arith order
+//@   requires line != nil ==> LineInv(line)
+//@   ensures result == pointContainsLineS(point, line)
+
+//@ func Point.ContainsPoly
+//@   props C03
+//@   arith order
+//@   requires poly != nil ==> PolyInv(poly)
+//@   ensures result == pointContainsPolyS(point, poly)
